@@ -3,6 +3,7 @@
 package pfcpiface
 
 import (
+	"sync"
 	"time"
 
 	"github.com/wmnsk/go-pfcp/message"
@@ -105,7 +106,51 @@ var vC13Reports = 3
 // Each report k is bracketed by two clock reads of the harness, before_k and
 // after_k; the limiter's own reads fall between them.
 func H_C13_notify() {
-	ch := make(chan uint64, 8)
+	// the report channel holds ONE event; a consumer (node.Serve in the agent)
+	// drains it. The limiter's send blocks while the channel is full.
+	ch := make(chan uint64, 1)
+	var got []uint64
+	var mu sync.Mutex
+	done := make(chan struct{})
+	tick := make(chan struct{})
+	take := func(f uint64) {
+		mu.Lock()
+		got = append(got, f)
+		mu.Unlock()
+	}
+	// The consumer is SLOW: it takes an event only while the producer is blocked
+	// on the full channel. Under the engine that is the baton scheduler's one
+	// schedule (the consumer runs when the main goroutine cannot); natively the
+	// same schedule is enforced by ticks: notify() runs Notify in a helper
+	// goroutine and, if it has not returned after a grace period, lets the
+	// consumer take exactly one event.
+	if vInEngine() {
+		go func() {
+			for f := range ch {
+				take(f)
+			}
+			close(done)
+		}()
+	} else {
+		go func() {
+			for range tick {
+				f, ok := <-ch
+				if !ok {
+					break
+				}
+				take(f)
+			}
+			for f := range ch {
+				take(f)
+			}
+			close(done)
+		}()
+	}
+	delivered := func() int {
+		mu.Lock()
+		defer mu.Unlock()
+		return len(got) + len(ch)
+	}
 	iv := time.Duration(vU64("interval_ns") & (1<<40 - 1))
 	vAssume(iv > 0)
 	n := NewDownlinkDataNotifier(ch, iv)
@@ -119,20 +164,25 @@ func H_C13_notify() {
 	for k := 0; k < vC13Reports; k++ {
 		f := vU64("fseid")
 		r := rep{fseid: f, before: time.Now()}
-		q := len(ch)
-		n.Notify(f)
-		r.after = time.Now()
-		r.fwd = len(ch) == q+1
-		vAssert("at-most-one-event-per-report", len(ch) == q || len(ch) == q+1)
-		if r.fwd {
-			// the event forwarded carries the reported F-SEID
-			var last uint64
-			for j := 0; j <= q; j++ {
-				last = <-ch
-				ch <- last
+		q := delivered()
+		if vInEngine() {
+			n.Notify(f)
+		} else {
+			ret := make(chan struct{})
+			go func() { n.Notify(f); close(ret) }()
+			for waiting := true; waiting; {
+				select {
+				case <-ret:
+					waiting = false
+				case <-time.After(20 * time.Millisecond):
+					tick <- struct{}{} // the producer is blocked: the consumer takes one event
+				}
 			}
-			vAssert("forwarded-event-carries-the-fseid", last == f)
 		}
+		r.after = time.Now()
+		q2 := delivered()
+		r.fwd = q2 == q+1
+		vAssert("at-most-one-event-per-report", q2 == q || q2 == q+1)
 		vObserve("fwd", r.fwd)
 		// the last forwarded predecessor of the same session
 		prev := -1
@@ -165,4 +215,20 @@ func H_C13_notify() {
 		}
 		hist = append(hist, r)
 	}
+	close(ch)
+	if vInEngine() {
+		vJoin()
+	} else {
+		close(tick)
+		<-done
+	}
+	// what reached the consumer is exactly the forwarded reports, in order
+	k := 0
+	for _, r := range hist {
+		if r.fwd {
+			vAssert("forwarded-event-carries-the-fseid", k < len(got) && got[k] == r.fseid)
+			k++
+		}
+	}
+	vAssert("nothing-else-delivered", k == len(got))
 }
